@@ -19,6 +19,7 @@ import OFV.Proofs.C09Seq
 import OFV.Proofs.C09Bct4
 import OFV.Proofs.C09Enc
 import OFV.Proofs.C09Sum
+import OFV.Proofs.C09JwEq
 
 namespace OFV.C09
 open OFV.Model.C09 OFV.Spec.C09
@@ -428,6 +429,38 @@ theorem binary_code_transform_sound (c : Code) (h R : Model.Op) (dom : List Nat 
     (hR : binaryCodeTransform 0 h c = .ok R) :
     Sem.den .qubit R [wq] [xq] = Spec.melF h out s :=
   bct_sound_encoded c h R dom hsh hpoly hne hdom hwf v u hv hu wq xq s out hw hx hs ho hpres hR
+
+/-- `binary_code_transform(h, jordan_wigner_code(n))` (tolerance-free Model) has the matrix elements of `h`
+in the occupation basis, for every `n`, every FermionOperator on modes `< n` and all basis states. -/
+theorem bct_jw_matrix (n : Nat) (c : Code) (hc : jordanWignerCode n = .ok c) (h R : Model.Op)
+    (hwf : ∀ tc ∈ h, ∀ f ∈ tc.1, f.2 ≤ 1 ∧ f.1 < n) (hR : binaryCodeTransform 0 h c = .ok R)
+    (s out : Nat) (hs : s < 2 ^ n) (ho : out < 2 ^ n) : Sem.den .qubit R [s] [out] = Spec.melF h out s :=
+  bct_jw_matrix' n c hc h R hwf hR s out hs ho
+
+/-- **bct_jw_eq_jw** (as operators): `binary_code_transform(h, jordan_wigner_code(n))` and `jordan_wigner(h)`
+(the C04 Model) have the same matrix elements between all `n`-qubit basis states. -/
+theorem bct_jw_eq_jw (n : Nat) (c : Code) (hc : jordanWignerCode n = .ok c) (h R : Model.Op)
+    (hwf : ∀ tc ∈ h, ∀ f ∈ tc.1, f.2 ≤ 1 ∧ f.1 < n) (hR : binaryCodeTransform 0 h c = .ok R)
+    (s out : Nat) (hs : s < 2 ^ n) (ho : out < 2 ^ n) :
+    Sem.den .qubit R [s] [out] = Sem.den .qubit (Model.C04.jwFermion 0 h) [s] [out] :=
+  bct_jw_eq_jw' n c hc h R hwf hR s out hs ho
+
+/-- `binary_code_transform(h, bravyi_kitaev_code(n))`: `⟨e(out)| R |e(s)⟩ = ⟨out| h |s⟩` for every `n`, every
+FermionOperator on modes `< n` and all Fock states (`wq`, `xq` the qubit states with the bits `A·s`, `A·out mod 2`). -/
+theorem bct_bk_matrix (n : Nat) (c : Code) (hc : bravyiKitaevCode n = .ok c) (h R : Model.Op)
+    (hwf : ∀ tc ∈ h, ∀ f ∈ tc.1, f.2 ≤ 1 ∧ f.1 < n) (hR : binaryCodeTransform 0 h c = .ok R)
+    (s out wq xq : Nat) (hs : s < 2 ^ n) (ho : out < 2 ^ n)
+    (hw : bitsOf wq = encFn c (occList s n)) (hx : bitsOf xq = encFn c (occList out n)) :
+    Sem.den .qubit R [wq] [xq] = Spec.melF h out s :=
+  bct_bk_matrix' n c hc h R hwf hR s out wq xq hs ho hw hx
+
+/-- the same for `parity_code(n)` -/
+theorem bct_parity_matrix (n : Nat) (c : Code) (hc : parityCode n = .ok c) (h R : Model.Op)
+    (hwf : ∀ tc ∈ h, ∀ f ∈ tc.1, f.2 ≤ 1 ∧ f.1 < n) (hR : binaryCodeTransform 0 h c = .ok R)
+    (s out wq xq : Nat) (hs : s < 2 ^ n) (ho : out < 2 ^ n)
+    (hw : bitsOf wq = encFn c (occList s n)) (hx : bitsOf xq = encFn c (occList out n)) :
+    Sem.den .qubit R [wq] [xq] = Spec.melF h out s :=
+  bct_parity_matrix' n c hc h R hwf hR s out wq xq hs ho hw hx
 
 /-! ## the literal segment codes (tables re-extracted from the source on every run) -/
 
